@@ -3,6 +3,7 @@
 mkdir -p ${MUT_ROOT:-/tmp/mut}/results
 for d in ${MUT_ROOT:-/tmp/mut}/C*/MUTANTS; do
   p=$(basename $(dirname $d))
+  if [ -n "$ONLY" ]; then case " $ONLY " in *" $p "*) ;; *) continue;; esac; fi
   ( for m in $d/m*; do
       [ -f $m/patch.diff ] || continue
       out=${MUT_ROOT:-/tmp/mut}/results/$p-$(basename $m).json
